@@ -158,7 +158,7 @@ def run(ctx):
     before = class_state(I)
     results = c07.run_cases(ctx, cs)
     builders = {}
-    hist = trees.SharedObjects(ctx, ctx.rng, "ElasticsearchQueryBuilder")
+    hist = trees.SharedObjects(ctx, ctx.rng, "ElasticsearchQueryBuilder", known_params={"tree"})
     reqs_seen = []
     for schema, cfg, d, r, raw in results:
         ok = "ok" in r
